@@ -304,9 +304,9 @@ class Ctx:
         p = self.write_replay("nofail" if nofail else "viol", obj)
         self.violations.append((what, p, nofail))
 
-    def known_key_of(self, suite, case, observed):
+    def known_key_of(self, suite, case, observed, stream=None):
         """KnownClass of a (case, observed result), computed by the extracted Coq predicate (0 = none)."""
-        ks = getattr(self.mod, "KNOWN_SUITE", {}).get(suite)
+        ks = getattr(stream, "known_suite", None) or getattr(self.mod, "KNOWN_SUITE", {}).get(suite)
         if not ks:
             return 0
         if getattr(self.mod, "KNOWN_ARGS", "case") == "pair":
@@ -401,7 +401,7 @@ def evaluate_stream(ctx, st):
     # property predicate fails on the implementation's own output -> violation (or a listed finding)
     seen_keys = set()
     for c, i, m in fails[:40]:
-        key = ctx.known_key_of(st.suite, c, i)
+        key = ctx.known_key_of(st.suite, c, i, st)
         kf = next((k for k in ctx.known if k.get("class_id") == key and k["status"] == "known"), None) if key else None
         if kf:
             ctx.known_hits[kf["key"]] = kf["what"]
@@ -410,12 +410,12 @@ def evaluate_stream(ctx, st):
             continue
         seen_keys.add(("pf", st.suite))
 
-        def still(cand, suite=st.suite, chk=st.checker):
+        def still(cand, suite=st.suite, chk=st.checker, st=st):
             o = run_impl(["%s %s" % (suite, cand)])[0]
             if o == BAD:
                 return False
             v = run_checker(chk, [cand], [o])[0]
-            return v == "0" and not ctx.known_key_of(suite, cand, o)
+            return v == "0" and not ctx.known_key_of(suite, cand, o, st)
         small = shrink(c, still)
         o = run_impl(["%s %s" % (st.suite, small)])[0]
         mo = resolve_needs(["%s %s" % (st.suite, small)])[0][0]
